@@ -27,6 +27,13 @@ INVS = ["TypeOK", "TemplatesConstant", "Encodes", "MetadataClosed", "Serialisabl
 ATTRS = ["n_nodes_per_face", "edge_node_connectivity", "face_edge_connectivity", "edge_face_connectivity", "node_face_connectivity",
          "face_face_connectivity", "node_x", "node_lon", "face_lon", "face_x", "edge_lon", "edge_x", "face_areas", "bounds",
          "edge_node_distances", "edge_face_distances", "hole_edge_indices", "edge_node_z"]
+# face-size sequences of the model's strip meshes (EncodeRel!StripMesh): the generator's size-spread parameter
+SH_UNI = "{<<3,3,3>>}"
+SH_G2 = "{<<4,4>>}"
+SH_MIX = "{<<3,4,3,5>>, <<3,6>>, <<5,6,7>>}"                                   # spread 2 (three sizes), 3, MPAS-like
+SH_ALL = "{<<3,3,3>>, <<3,4,3,5>>, <<3,6>>, <<5,6,7>>}"
+SH_MIX_T = "{<<3,4,3,5>>, <<3,6>>, <<5,6,7>>, <<3,5>>, <<4,7,4>>, <<3,8>>, <<3,4>>, <<6,5,7,6>>}"
+SH_ALL_T = "{<<3,3,3>>, <<4,4>>, <<3,4,3,5>>, <<3,6>>, <<5,6,7>>, <<3,5>>, <<4,7,4>>, <<3,8>>, <<3,4>>, <<6,5,7,6>>}"
 UNI = ["cube", "octahedron", "tetrahedron", "rhombic_dodecahedron", "tetrakis_cube"]
 MIX = ["cuboctahedron", "truncated_cube", "truncated_cube_split", "truncated_octahedron", "truncated_octahedron_split", "rhombicuboctahedron"]
 
@@ -69,13 +76,19 @@ def _call_of(label):
     return [kind] + args
 
 
+def _shape(x):
+    return tuple(int(v) for v in x)
+
+
 def _desc_of(label):
     txt = label.replace("\\n", "\n").replace('\\"', '"').replace("\\\\", "\\")
     m = re.search(r"/\\ desc = (\[.*?\]\s*\])", txt, re.S)
-    if not m:
-        raise Machinery("no desc in dot node label")
+    mm = re.search(r"/\\ mesh = (\[.*?\])\n/\\ ", txt + "\n/\\ ", re.S)
+    if not m or not mm:
+        raise Machinery("no desc / mesh in dot node label")
     d = tlaval.parse(m.group(1))
-    return {g: {"route": d[g]["route"], "shape": d[g]["shape"]} for g in d}
+    mesh = tlaval.parse(mm.group(1))
+    return {g: {"route": d[g]["route"], "shape": _shape(d[g]["shape"]), "mesh": [list(f) for f in mesh[g]]} for g in d}
 
 
 def transition_cover(dot_path):
@@ -147,7 +160,7 @@ def parse_cex(out):
             i = j + 5
             continue
         i = end
-        desc = {g: {"route": v[1][g]["route"], "shape": v[1][g]["shape"]} for g in v[1]}
+        desc = {g: {"route": v[1][g]["route"], "shape": _shape(v[1][g]["shape"]), "mesh": [list(f) for f in v[4][g]]} for g in v[1]}
         calls = [list(c) for c in v[2]]
         bad = sorted((str(b[0]), int(b[1]), str(b[2])) for b in v[3])
         res.append({"desc": desc, "calls": calls, "bad": bad})
@@ -170,14 +183,25 @@ def cex_classes(ctx, mech, maxops, r1, s1, r2, s2, io, what):
     return classes, len(allc)
 
 
-def pick_entries(desc, rng, names_fixed=None):
+def pick_entries(desc, rng, origin):
+    """Real meshes for a scenario.  The face table TLC generated for the scenario's size sequence is
+    realised as it is (x_c07.strip_entry attaches coordinates; the table must coincide); for part of
+    the cover behaviours a closed / partial catalogue polyhedron of the same kind (uniform, mixed)
+    stands in, for variety in size, closedness and position on the sphere."""
     out = {}
     used = set()
     for g in sorted(desc):
-        pool = [n for n in (MIX if desc[g]["shape"] == "mix" else UNI) if n not in used]
-        name = (names_fixed or {}).get(g) or rng.choice(pool)
-        used.add(name)
-        out[g] = catalog.entries(name=name, rot=rng.randrange(25), cut=rng.choice([0, 0, 0, 2, 3, 5]))[0]
+        shape = desc[g]["shape"]
+        if origin == "cover" and rng.random() < 0.35:
+            pool = [n for n in (MIX if len(set(shape)) > 1 else UNI) if n not in used]
+            name = rng.choice(pool)
+            used.add(name)
+            out[g] = catalog.entries(name=name, rot=rng.randrange(25), cut=rng.choice([0, 0, 0, 2, 3, 5]))[0]
+        else:
+            e = x_c07.strip_entry(shape, rng)
+            if e["faces"] != desc[g]["mesh"]:
+                raise Machinery("strip mesh for %s differs from the table TLC generated: %s vs %s" % (shape, e["faces"], desc[g]["mesh"]))
+            out[g] = e
     return out
 
 
@@ -227,10 +251,10 @@ def validate(ctx, behs, results, tag):
             first_of[b["t"]] = first
             lines_of[b["t"]] = r["lines"]
             mesh = dict(r["mesh"])
-            desc = {g: dict(b["desc"][g]) for g in b["desc"]}
+            desc = {g: {"route": b["desc"][g]["route"], "shape": list(b["desc"][g]["shape"])} for g in b["desc"]}
             for g in ("g1", "g2"):
                 mesh.setdefault(g, [])
-                desc.setdefault(g, {"route": "none", "shape": "uni"})
+                desc.setdefault(g, {"route": "none", "shape": []})
             fi.write(json.dumps({"t": b["t"], "first": first, "last": n, "desc": desc, "mesh": mesh}) + "\n")
     if not first_of:
         return {}, []
@@ -309,11 +333,13 @@ def report(ctx, behs, results, viol, origin):
         for rel, L, clause, k, detail in items:
             X = export_of(lines, k) if k > 0 else None
             g = X["g"] if X else L.get("g", "g1")
+            sizes = {len(f) for f in res_t[t]["mesh"].get(g, [])}
             sig = {
                 "detail": detail,
                 "fmt": X["fmt"] if X else "",
                 "route": b["desc"][g]["route"],
-                "mixed": b["desc"][g]["shape"] == "mix",
+                "mixed": len(sizes) > 1,
+                "spread": (max(sizes) - min(sizes)) if sizes else 0,
                 "at": L["ev"],
             }
             key = "%s@%d:%s:%s:%s" % (beh_id(b), rel + 1, L["ev"], clause, detail)
@@ -413,17 +439,17 @@ def run(ctx):
 
     # 1. the specification on its own: Mech_intended satisfies every clause (bounded, exhaustive)
     if thorough:
-        ctx.tlc_ok("EncodeLazy", cfg("intended", 4, 2, ALL_ROUTES, '{"uni","mix"}', ALL_ROUTES, '{"uni","mix"}', True, INVS, "NoHist"),
-                   what="Mech_intended: all clauses, 100 scenarios, histories <= 4 calls", workers=8, timeout=3000)
-        ctx.tlc_ok("EncodeLazy", cfg("intended", 6, 3, '{"topo","fv"}', '{"mix"}', '{"topoE"}', '{"uni"}', True, INVS, "NoHist"),
+        ctx.tlc_ok("EncodeLazy", cfg("intended", 4, 2, ALL_ROUTES, SH_ALL, ALL_ROUTES, "{<<4,4>>, <<3,5>>}", True, INVS, "NoHist"),
+                   what="Mech_intended: all clauses, 200 scenarios, histories <= 4 calls", workers=8, timeout=3000)
+        ctx.tlc_ok("EncodeLazy", cfg("intended", 6, 3, '{"topo","fv"}', "{<<3,4,3,5>>}", '{"topoE"}', SH_G2, True, INVS, "NoHist"),
                    what="Mech_intended: all clauses, 2 scenarios, histories <= 6 calls, 3 exports", workers=8, timeout=3000)
     else:
-        ctx.tlc_ok("EncodeLazy", cfg("intended", 4, 2, ALL_ROUTES, '{"uni","mix"}', '{"topoE"}', '{"uni"}', True, INVS, "NoHist"),
-                   what="Mech_intended: all clauses, 10 scenarios, histories <= 4 calls", workers=8, timeout=1500)
+        ctx.tlc_ok("EncodeLazy", cfg("intended", 4, 2, ALL_ROUTES, SH_ALL_T if thorough else SH_ALL, '{"topoE"}', SH_G2, True, INVS, "NoHist"),
+                   what="Mech_intended: all clauses, 20 scenarios (5 routes x 4 size sequences), histories <= 4 calls", workers=8, timeout=1500)
 
     # 2. Mech_observed: TLC produces the violating histories (directed tests)
     per = 2 if thorough else 1
-    classes, n_states = cex_classes(ctx, "observed", 5 if thorough else 4, ALL_ROUTES, '{"uni","mix"}', '{"topoE"}', '{"uni"}', True,
+    classes, n_states = cex_classes(ctx, "observed", 4, ALL_ROUTES, SH_ALL_T if thorough else SH_ALL, '{"topoE"}', SH_G2, True,
                                     "Mech_observed: enumerate violating histories")
     cex = []
     for key in sorted(classes):
@@ -438,20 +464,20 @@ def run(ctx):
     #    every single departure from the intended mechanism must break an invariant.)
     wide = thorough
     plans = {
-        "rev_d3a60c34": (4, '{"topo","fv","ufile"}' if wide else '{"topo"}', '{"uni","mix"}' if wide else '{"uni"}', False),
-        "rev_ef0ca9d1": (4, '{"topo","fv","ufile"}' if wide else '{"topo"}', '{"uni","mix"}' if wide else '{"uni"}', False),
-        "rev_e3484517": (3 if wide else 2, '{"topo","topoE"}' if wide else '{"topo"}', '{"uni"}', False),
-        "rev_ea0c8869": (3, '{"topo","ugrid","fv"}' if wide else '{"topo","ugrid"}', '{"uni"}', False),
-        "rev_85394185": (4 if wide else 3, '{"topo","fv","ufile"}' if wide else '{"topo"}', '{"uni","mix"}' if wide else '{"uni"}', False),
-        "rev_755d0493": (4, '{"fv"}', '{"uni","mix"}' if wide else '{"uni"}', False),
-        "rev_6b5a0114": (3 if wide else 2, '{"topo","fv","ugrid"}' if wide else '{"topo"}', '{"mix"}', False),
-        "rev_5f78d30f": (3 if wide else 2, '{"topo","fv","ugrid"}' if wide else '{"topo"}', '{"mix"}', False),
-        "rev_e9051200": (3 if wide else 2, '{"ufile"}', '{"uni","mix"}' if wide else '{"uni"}', False),
+        "rev_d3a60c34": (4, '{"topo","fv","ufile"}' if wide else '{"topo"}', SH_ALL if wide else SH_UNI, False),
+        "rev_ef0ca9d1": (4, '{"topo","fv","ufile"}' if wide else '{"topo"}', SH_ALL if wide else SH_UNI, False),
+        "rev_e3484517": (3 if wide else 2, '{"topo","topoE"}' if wide else '{"topo"}', SH_UNI, False),
+        "rev_ea0c8869": (3, '{"topo","ugrid","fv"}' if wide else '{"topo","ugrid"}', SH_UNI, False),
+        "rev_85394185": (4 if wide else 3, '{"topo","fv","ufile"}' if wide else '{"topo"}', SH_ALL if wide else SH_UNI, False),
+        "rev_755d0493": (4, '{"fv"}', SH_ALL if wide else SH_UNI, False),
+        "rev_6b5a0114": (3 if wide else 2, '{"topo","fv","ugrid"}' if wide else '{"topo"}', SH_MIX_T if wide else SH_MIX, False),
+        "rev_5f78d30f": (3 if wide else 2, '{"topo","fv","ugrid"}' if wide else '{"topo"}', SH_MIX_T if wide else SH_MIX, False),
+        "rev_e9051200": (3 if wide else 2, '{"ufile"}', SH_ALL if wide else SH_UNI, False),
     }
     regress = []
     broke = {}
     for v, (mo, r1, s1, io) in plans.items():
-        cl_v, _ = cex_classes(ctx, v, mo, r1, s1, '{"topoE"}', '{"uni"}', io, "model variant %s (reverted fix): histories that break a clause" % v)
+        cl_v, _ = cex_classes(ctx, v, mo, r1, s1, '{"topoE"}', SH_G2, io, "model variant %s (reverted fix): histories that break a clause" % v)
         new = sorted(k for k in cl_v if k[:5] not in seen5)
         broke[v] = sorted({k[0] for k in new})
         if not new:
@@ -460,9 +486,9 @@ def run(ctx):
             for c in cl_v[key][:per]:
                 regress.append(dict(c, expect=(key[0], key[1]), origin="regress:" + v))
     if thorough:
-        for v in ["before_c07_repairs", "only_alias", "only_helper", "only_coords", "only_scrip", "only_exofill", "only_exostart", "only_exoreader", "only_filefill"]:
+        for v in ["before_c07_repairs", "only_alias", "only_helper", "only_coords", "only_scrip", "only_exofill", "only_exostart", "only_exoreader", "only_scripreader", "only_scripkeep", "only_filefill"]:
             invs = [i for i in INVS if i != "FunctionOfSource"]
-            r = ctx.tlc("EncodeLazy", cfg(v, 4, 2, ALL_ROUTES, '{"uni","mix"}', '{"topoE"}', '{"uni"}', True, invs, "NoHist"),
+            r = ctx.tlc("EncodeLazy", cfg(v, 4, 2, ALL_ROUTES, SH_ALL_T if thorough else SH_ALL, '{"topoE"}', SH_G2, True, invs, "NoHist"),
                         what="model mutant %s must break a clause" % v, workers=4, count=False, timeout=900)
             broke[v] = r.violated
             if not r.violated:
@@ -473,12 +499,12 @@ def run(ctx):
     # 4. transition cover of the call graph (Mech_intended), as test behaviours
     gens = []
     dot = os.path.join(ctx.work, "cover.dot")
-    plans = [(3, "{\"topoE\"}", '{"uni"}')]
+    plans = [(3, SH_ALL, '{"topoE"}', SH_G2)]
     if thorough:
-        plans = [(4, '{"topoE"}', '{"uni"}'), (3, '{"topo","fv","ugrid"}', '{"mix"}')]
+        plans = [(4, SH_ALL, '{"topoE"}', SH_G2), (3, SH_ALL_T, '{"topo","fv"}', "{<<3,5>>}")]
     n_edges = n_nodes = 0
-    for depth, r2, s2 in plans:
-        ctx.tlc_ok("EncodeLazy", cfg("intended", depth, 2, ALL_ROUTES, '{"uni","mix"}', r2, s2, False, [], "GenView"),
+    for depth, s1, r2, s2 in plans:
+        ctx.tlc_ok("EncodeLazy", cfg("intended", depth, 2, ALL_ROUTES, s1, r2, s2, False, [], "GenView"),
                    what="call graph to depth %d for the transition cover" % depth, workers=1, dump_dot=dot, timeout=3000)
         bs, ne, nn = transition_cover(dot)
         os.remove(dot)
@@ -505,8 +531,8 @@ def run(ctx):
         for b in src:
             origin = b["origin"]
             t += 1
-            ents = pick_entries(b["desc"], rng)
-            behs.append({"t": t, "origin": origin, "desc": b["desc"], "entries": ents, "names": {g: catalog.eid(e) for g, e in ents.items()},
+            ents = pick_entries(b["desc"], rng, origin)
+            behs.append({"t": t, "origin": origin, "desc": b["desc"], "entries": ents, "names": {g: (catalog.eid(e) if "rot" in e else e["name"]) for g, e in ents.items()},
                          "routes": {g: b["desc"][g]["route"] for g in b["desc"]}, "calls": finish_calls(b["calls"], rng), "work": ctx.work,
                          "expect": b.get("expect"), "model_bad": b.get("bad")})
     # 5. code -> spec: bigger inputs (sample files, random mixed planar meshes), same machine, same judge
@@ -518,7 +544,7 @@ def run(ctx):
             for pre in ([], ["face_edge_connectivity"], ["face_lon", "CHUNK"]) if thorough else ([], ["edge_lon"]):
                 t += 1
                 calls = [["Open", "g1"]] + [["Chunk", "g1"] if a == "CHUNK" else ["Access", "g1", a] for a in pre]
-                big.append({"t": t, "origin": "file", "desc": {"g1": {"route": "file", "shape": "mix"}}, "entries": {"g1": {"file": p, "name": f}},
+                big.append({"t": t, "origin": "file", "desc": {"g1": {"route": "file", "shape": ()}}, "entries": {"g1": {"file": p, "name": f}},
                             "names": {"g1": f}, "routes": {"g1": "file"}, "calls": finish_calls(calls, rng), "work": ctx.work})
     for k in range(24 if thorough else 6):
         nx, ny = rng.randint(3, 14 if thorough else 8), rng.randint(3, 14 if thorough else 8)
@@ -527,7 +553,7 @@ def run(ctx):
         t += 1
         pre = rng.sample(["edge_node_connectivity", "face_lon", "node_x", "face_areas", "node_face_connectivity", "edge_face_distances"], 2)
         calls = [["Open", "g1"]] + [["Access", "g1", a] for a in pre]
-        big.append({"t": t, "origin": "planar", "desc": {"g1": {"route": route, "shape": "mix" if len({len(f) for f in faces}) > 1 else "uni"}},
+        big.append({"t": t, "origin": "planar", "desc": {"g1": {"route": route, "shape": ()}},
                     "entries": {"g1": {"lonlat": list(zip(lon, lat)), "faces": faces, "name": "planar%dx%d#%d" % (nx, ny, k)}},
                     "names": {"g1": "planar%dx%d#%d" % (nx, ny, k)}, "routes": {"g1": route}, "calls": finish_calls(calls, rng), "work": ctx.work})
 
